@@ -1,10 +1,10 @@
 SPECIFICATION Spec
 CONSTANTS
-  MaxFlow = 3
-  MaxOuts = 3
-  MaxPuts = 1
-  MaxReconf = 0
-  Tier = "demux"
+  MaxFlow = 1
+  MaxOuts = 2
+  MaxPuts = 2
+  MaxReconf = 1
+  Tier = "reconf"
 CONSTRAINT Emit
 INVARIANT DemuxAtMostOne
 INVARIANT DemuxSameObject
